@@ -338,9 +338,9 @@ class Gen:
             g = r.choice(["h", "x", "y", "z", "rx", "ry", "rz", "cx"])
             self.features.add("gate")
             if g in ("rx", "ry", "rz"):
-                ang = r.choice(["0.5f", "1.5f", "3.140625f", "0.25f", "2.0f", "0.75f", "-0.75f", "-0.25f", "-1.5f", "-3.0f", "100.5f", "-12.125f", "0.0f"]
+                ang = r.choice(["0.5f", "1.5f", "3.140625f", "0.25f", "2.0f", "0.75f", "-0.75f", "-0.25f", "-1.5f", "-3.0f", "100.5f", "-12.125f", "0.0f"])
                 # angles below the six printed decimals are left out: with an adversarial draw the recorded outcome can have
-                # probability ~1e-14 under the exact angle and 0 under the printed one, which the property's own tolerance excludes)
+                # probability ~1e-14 under the exact angle and 0 under the printed one, which the property's own tolerance excludes
                 return done("%s(%s, %s);" % (g, operand(), ang))
             if g == "cx":
                 a, b = operand(), operand()
